@@ -315,6 +315,20 @@ class Summaries:
             if a[0].op == "array":
                 return lit(len(a[0].args))
             return mk("len", a[0])
+        if tp.endswith("Vec::<T, A>::len"):
+            n = I.length_of(a[0])
+            return lit(n) if n is not None else mk("len", a[0])
+        if tp in ("core::slice::<impl [T]>::is_empty",) or tp.endswith("Vec::<T, A>::is_empty"):
+            n = I.length_of(a[0], ctx.arg_exprs[0] if ctx.arg_exprs else None)
+            return (TRUE if n == 0 else FALSE) if n is not None else eq(mk("len", a[0]), lit(0))
+        if tp.endswith("Vec::<T>::with_capacity"):
+            return mk("empty", "Vec")
+        if tp.endswith("Vec::<T, A>::reserve") or tp.endswith("Vec::<T, A>::shrink_to_fit"):
+            return UNIT
+        if re.match(r"core::num::<impl u(8|16|32|64|128|size)>::pow$", tp):
+            if Tm.is_lit(a[0]) and Tm.is_lit(a[1]):
+                return lit(a[0].args[0] ** a[1].args[0])
+            return mk("call", tp, a[0], a[1])        # an integer function of its arguments (folded by statics.fold when they become constants)
         if tp == "core::iter::Iterator::rev":
             if a[0].op == "rev":
                 return a[0].args[0]
